@@ -1,0 +1,87 @@
+//go:build verif
+
+// Contracts for the deductive checks in /verif (comment-only; not part of normal builds).
+
+package datatypes
+
+//@ pred wiredWF(w *WiredDatatype) = w.TransactionDatatype != nil && w.TransactionDatatype.BaseDatatype != nil && w.checkPoint != nil
+
+// The buffer of operations awaiting push: non-nil operations with non-nil ids numbered consecutively.
+//@ pred bufWF(w *WiredDatatype) = forall i int :: 0 <= i && i < len(w.localBuffer) ==> w.localBuffer[i] != nil && w.localBuffer[i].ID != nil && w.localBuffer[i].ID.Seq == w.localBuffer[0].ID.Seq + i
+
+// getModelOperations(cseq): exactly the buffered operations numbered cseq and above, in order
+//@ func (*WiredDatatype).getModelOperations
+//@   mode wrap
+//@   props C05 C07
+//@   requires bufWF(its) && cseq < 9223372036854775808 && (len(its.localBuffer) > 0 ==> its.localBuffer[0].ID.Seq < 9223372036854775808)
+//@   ensures[suffix-from-cseq] len(its.localBuffer) > 0 && cseq >= its.localBuffer[0].ID.Seq && cseq - its.localBuffer[0].ID.Seq < len(its.localBuffer) ==> len(result) == len(its.localBuffer) - (cseq - its.localBuffer[0].ID.Seq) && (forall j int :: 0 <= j && j < len(result) ==> result[j] == its.localBuffer[j + (cseq - its.localBuffer[0].ID.Seq)])
+//@   ensures[nothing-newer]    len(its.localBuffer) == 0 || cseq < its.localBuffer[0].ID.Seq || cseq - its.localBuffer[0].ID.Seq >= len(its.localBuffer) ==> len(result) == 0
+//@   ensures[only-unacked]     forall j int :: 0 <= j && j < len(result) ==> result[j] != nil && result[j].ID != nil && result[j].ID.Seq >= cseq
+//@   modifies nothing
+
+//@ func (*WiredDatatype).calculatePullingOperations
+//@   mode bv
+//@   props C05 C07
+//@   requires its.checkPoint != nil && newCheckPoint != nil
+//@   ensures result == int((newCheckPoint.Sseq - its.checkPoint.Sseq) - (newCheckPoint.Cseq - its.checkPoint.Cseq))
+//@   modifies nothing
+
+//@ func (*WiredDatatype).syncCheckPoint
+//@   mode wrap
+//@   props C05 C07
+//@   requires wiredWF(its) && newCheckPoint != nil && its.checkPoint != newCheckPoint
+//@   ensures[max-sseq]  its.checkPoint.Sseq == (old(its.checkPoint.Sseq) < newCheckPoint.Sseq ? newCheckPoint.Sseq : old(its.checkPoint.Sseq))
+//@   ensures[max-cseq]  its.checkPoint.Cseq == (old(its.checkPoint.Cseq) < newCheckPoint.Cseq ? newCheckPoint.Cseq : old(its.checkPoint.Cseq))
+//@   ensures[never-backwards] its.checkPoint.Sseq >= old(its.checkPoint.Sseq) && its.checkPoint.Cseq >= old(its.checkPoint.Cseq)
+//@   ensures[same-object] its.checkPoint == old(its.checkPoint)
+//@   ensures[others]    forall c *model.CheckPoint :: c != its.checkPoint && old(allocated(c)) ==> c.Sseq == old(c.Sseq) && c.Cseq == old(c.Cseq)
+//@   modifies model.CheckPoint.Sseq, model.CheckPoint.Cseq
+
+// ---------------------------------------------------------------------------------------
+// applying a reply (client side of the protocol)
+// ---------------------------------------------------------------------------------------
+
+// every operation of a reply is well-formed: declared type, decodable body, identifier present
+//@ pred opsWF(ops []*model.Operation) = forall i int :: 0 <= i && i < len(ops) ==> ops[i] != nil && ops[i].ID != nil && operations.knownOpType(ops[i].OpType) && operations.decodable(ops[i])
+
+//@ func (*WiredDatatype).NeedPull
+//@   mode wrap
+//@   props C18 C05
+//@   requires its.checkPoint != nil
+//@   ensures result == (its.checkPoint.Sseq < sseq)
+//@   modifies nothing
+
+//@ func (*WiredDatatype).NeedPush
+//@   mode wrap
+//@   props C05
+//@   requires wiredWF(its) && its.opID != nil
+//@   ensures result == (its.checkPoint.Cseq < its.opID.Seq)
+//@   modifies nothing
+
+//@ func (*WiredDatatype).ResetWired
+//@   mode wrap
+//@   props C13
+//@   requires wiredWF(its) && its.opID != nil
+//@   ensures len(its.localBuffer) == 0 && its.opID.Seq == 0
+//@   ensures its.opID == old(its.opID) && its.opID.Lamport == old(its.opID.Lamport) && its.checkPoint == old(its.checkPoint)
+//@   ensures forall w *WiredDatatype :: w != its ==> len(w.localBuffer) == old(len(w.localBuffer))
+//@   ensures forall o *model.OperationID :: o != its.opID ==> o.Seq == old(o.Seq)
+//@   modifies WiredDatatype.localBuffer, model.OperationID.Seq
+
+// excludeDuplicatedOperations drops `len(ops) - pulled` operations from the FRONT of the reply
+// (what the code does; the property-level statement is the C07 lemma).
+//@ func (*WiredDatatype).excludeDuplicatedOperations
+//@   mode bv
+//@   props C07 C05
+//@   requires wiredWF(its) && ppp != nil && ppp.CheckPoint != nil
+//@   replay-input cp_sseq = its.checkPoint.Sseq
+//@   replay-input cp_cseq = its.checkPoint.Cseq
+//@   replay-input new_sseq = ppp.CheckPoint.Sseq
+//@   replay-input new_cseq = ppp.CheckPoint.Cseq
+//@   replay-input n_ops = len(ppp.Operations)
+//@   replay-bound len(ppp.Operations) <= 4 && its.checkPoint.Sseq <= 100 && its.checkPoint.Cseq <= 100 && ppp.CheckPoint.Sseq <= 100 && ppp.CheckPoint.Cseq <= 100
+//@   ensures[skip-from-front] len(old(ppp.Operations)) > its.calculatePullingOperations(ppp.CheckPoint) && its.calculatePullingOperations(ppp.CheckPoint) >= 0 ==> len(ppp.Operations) == its.calculatePullingOperations(ppp.CheckPoint)
+//@   ensures[stale-drops-all] its.calculatePullingOperations(ppp.CheckPoint) < 0 ==> len(ppp.Operations) == 0
+//@   ensures[keeps-all]       len(old(ppp.Operations)) <= its.calculatePullingOperations(ppp.CheckPoint) ==> len(ppp.Operations) == len(old(ppp.Operations))
+//@   ensures[checkpoint-untouched] its.checkPoint.Sseq == old(its.checkPoint.Sseq) && its.checkPoint.Cseq == old(its.checkPoint.Cseq)
+//@   modifies model.PushPullPack.Operations
